@@ -14,6 +14,7 @@ mod c10;
 mod c11;
 mod c12;
 mod c13;
+mod c14;
 mod c18;
 mod lite;
 mod truth;
@@ -71,6 +72,7 @@ fn main() {
             "C11" => c11::replay(&v),
             "C12" => c12::replay(&v),
             "C13" => c13::replay(&v),
+            "C14" => c14::replay(&v),
             "C18" => c18::replay(&v),
             _ => {
                 eprintln!("no replay for {id}");
@@ -91,6 +93,7 @@ fn main() {
             "C11" => c11::run(tier),
             "C12" => c12::run(tier),
             "C13" => c13::run(tier),
+            "C14" => c14::run(tier),
             "C18" => c18::run(tier),
             "SMOKE" => smoke::run("/tmp/x/smoke"),
             _ => {
